@@ -55,7 +55,15 @@ impl FLedger {
 
     /// Execute a (test) manifest. `description` is what ends up in replay files.
     pub fn exec<M: BuildableManifest>(&mut self, shard: &mut Shard, label: &str, manifest: M, proofs: Vec<NonFungibleGlobalId>, description: String) -> FExec {
-        let config = ExecutionConfig::for_test_transaction();
+        self.exec_cfg(shard, label, manifest, proofs, description, false)
+    }
+
+    /// `auth_disabled`: run with the auth module switched off (as genesis transactions do); costing and limits stay on.
+    pub fn exec_cfg<M: BuildableManifest>(&mut self, shard: &mut Shard, label: &str, manifest: M, proofs: Vec<NonFungibleGlobalId>, description: String, auth_disabled: bool) -> FExec {
+        let mut config = ExecutionConfig::for_test_transaction();
+        if auth_disabled {
+            config.system_overrides = Some(SystemOverrides { disable_auth: true, network_definition: Some(NetworkDefinition::simulator()), ..Default::default() });
+        }
         let nonce = self.sim.next_transaction_nonce();
         let executable = match catch_mut(|| manifest.into_executable_with_proofs(nonce, proofs.into_iter().collect(), self.sim.transaction_validator())) {
             Ok(Ok(e)) => e,
@@ -65,8 +73,13 @@ impl FLedger {
                 shard.seen("harness:conversion_errors", &e.chars().take(80).collect::<String>());
                 return FExec { exec: Exec { receipt: None, panic: None }, marks: vec![] };
             }
+            Err(p) if p.message.contains("MaxDepthExceeded") || p.message.contains("MaxSize") => {
+                // TestTransaction preparation (test tooling, not the path of submitted payloads) unwraps the
+                // encoding of the in-memory manifest: an unencodable manifest is not a transaction
+                shard.count("harness:manifest_not_encodable");
+                return FExec { exec: Exec { receipt: None, panic: None }, marks: vec![] };
+            }
             Err(p) => {
-                // preparation is part of the client boundary: a panic while preparing a transaction is a crash too
                 let file = p.site().rsplit_once(':').map(|(f, _)| f.to_string()).unwrap_or_else(|| p.site());
                 let msg: String = p.message.chars().filter(|c| !c.is_ascii_digit()).take(60).collect();
                 shard.violation_for("C11", format!("prepare-panic@{file}:{}", msg.replace(' ', "_")), json!({"tx_label": label, "tx": description, "panic": p.summary()}));
